@@ -38,6 +38,8 @@ pub struct Monitors {
     expected_crashes: BTreeMap<TaskId, u32>,
     /// termination time (ms on the harness clock) of every worker with a time limit
     pub worker_term: BTreeMap<u32, u64>,
+    /// the same as the WORKER knows it (earlier than the server believes when time passed unseen: `age_worker`)
+    pub worker_true_term: BTreeMap<u32, u64>,
     pub now_ms: u64,
     /// terminal tasks already reported as unannounced
     unannounced: BTreeSet<TaskId>,
@@ -439,6 +441,19 @@ impl Monitors {
         let mut used: BTreeMap<u32, Vec<u64>> = BTreeMap::new();
         let mut fails = Vec::new();
         for r in recs {
+            if let Record::Mn { rq, sets } = r {
+                // multi-node placements: every chosen worker lives long enough for the time request
+                if let Some(def) = self.rqs.get(*rq as usize).and_then(|v| v.first()).cloned() {
+                    for w in sets.iter().flatten() {
+                        if let Some(t) = self.worker_term.get(w) {
+                            if now_ms + def.min_time_ms > *t {
+                                fails.push(("c05.placement", "mn-not-enough-lifetime", format!("multi-node request {rq} (time request {} ms) placed on worker {w} with {} ms left", def.min_time_ms, t.saturating_sub(now_ms))));
+                            }
+                        }
+                    }
+                }
+                continue;
+            }
             let Record::Sn { rq, variant, counts, .. } = r else { continue };
             let Some(def) = self.rqs.get(*rq as usize).and_then(|v| v.get(*variant as usize)).cloned() else { continue };
             for (w, c) in counts {
@@ -521,14 +536,17 @@ impl Monitors {
                     let runnable = rq.and_then(|r| self.rqs.get(r as usize)).is_some_and(|variants| {
                         variants.iter().any(|v| {
                             if v.n_nodes > 0 {
+                                // enough workers of one group that live long enough for the time request
                                 let mut groups: BTreeMap<&str, u32> = BTreeMap::new();
                                 for w in &snap.workers {
-                                    *groups.entry(w.group.as_str()).or_insert(0) += 1;
+                                    if self.worker_true_term.get(&w.id).or(self.worker_term.get(&w.id)).is_none_or(|t| self.now_ms + v.min_time_ms <= *t) {
+                                        *groups.entry(w.group.as_str()).or_insert(0) += 1;
+                                    }
                                 }
                                 groups.values().any(|c| *c >= v.n_nodes)
                             } else {
                                 snap.workers.iter().any(|w| {
-                                    self.worker_term.get(&w.id).is_none_or(|t| self.now_ms + v.min_time_ms <= *t) &&
+                                    self.worker_true_term.get(&w.id).or(self.worker_term.get(&w.id)).is_none_or(|t| self.now_ms + v.min_time_ms <= *t) &&
                                     v.entries.iter().all(|e| {
                                         let tot = w.total.get(e.resource as usize).copied().unwrap_or(0);
                                         match e.amount {
@@ -547,9 +565,21 @@ impl Monitors {
                             *groups.entry(w.group.as_str()).or_insert(0) += 1;
                         }
                         let max_group = groups.values().copied().max().unwrap_or(0);
+                        // (a multi-node task no group can host: too few workers, or too few that live long enough)
                         let unhostable_mn = snap.tasks.iter().any(|t| {
                             matches!(t.state, SnapTaskState::Waiting(0))
-                                && self.rqs.get(t.rq as usize).and_then(|v| v.first()).is_some_and(|r| r.n_nodes > max_group)
+                                && self.rqs.get(t.rq as usize).and_then(|v| v.first()).is_some_and(|r| {
+                                    if r.n_nodes == 0 {
+                                        return false;
+                                    }
+                                    let mut g: BTreeMap<&str, u32> = BTreeMap::new();
+                                    for w in &snap.workers {
+                                        if self.worker_true_term.get(&w.id).or(self.worker_term.get(&w.id)).is_none_or(|tt| self.now_ms + r.min_time_ms <= *tt) {
+                                            *g.entry(w.group.as_str()).or_insert(0) += 1;
+                                        }
+                                    }
+                                    r.n_nodes > max_group || !g.values().any(|c| *c >= r.n_nodes)
+                                })
                         });
                         let sig = if unhostable_mn { "stuck-behind-unhostable-multinode" } else { "runnable-task-stuck" };
                         fails.push(("c02.rest", sig, format!("at rest task {} is {:?} in the core although a connected worker can run it", tid(id), core.map(|x| &x.state))));
